@@ -4,6 +4,9 @@ Extracted syntactically: the comparison chain of `matches.sort_by(|a, b| a.X.cmp
 (the global sort key), whether that sort is the stable `sort_by`, whether the per-file outcomes are produced by
 `file_entries.par_iter().map(..).collect()` into a Vec (rayon keeps input order for that; `for_each`, a Mutex/channel
 sink, `par_bridge` or `collect` into a hash container would not), and the per-file pre-sort key.
+Also the rename list (`plan.paths`): stable per-root sort in rename.rs with a comparator that ties on equal-depth directories,
+per-root lists appended in root order, order-preserving `retain` de-duplication, and the number of passes through a hash
+container (see rename_list_shape).
 Raises if the function or the sort cannot be found (broken tie)."""
 import os
 import re
@@ -36,8 +39,77 @@ def extract():
         ordered = bool(re.match(r"\s*\.\s*collect\s*\(\s*\)\s*;", body[close + 1:]))
     sinks = len(re.findall(r"\bfor_each(?:_with)?\s*\(|\bMutex\b|\bmpsc\b|\bchannel\s*\(|\bpar_bridge\s*\(|\bRwLock\b|collect\s*::\s*<\s*Hash", body))
     pre = re.search(r"file_matches\s*\.\s*sort_by_key\s*\(\s*\|\s*m\s*\|\s*\(\s*m\s*\.\s*(\w+)\s*,\s*m\s*\.\s*(\w+)\s*\)\s*\)", body)
-    return {"keys": [k for k, _ in keys], "stable": stable, "ordered": ordered, "sinks": sinks,
-            "presort": list(pre.groups()) if pre else []}
+    res = {"keys": [k for k, _ in keys], "stable": stable, "ordered": ordered, "sinks": sinks,
+           "presort": list(pre.groups()) if pre else []}
+    res.update(rename_list_shape(text, body))
+    return res
+
+
+def rename_list_shape(scanner_text, multi_body):
+    """how the rename list (`plan.paths`) is put together:
+      * per root: rename.rs sorts the walk-ordered candidates with the STABLE `sort_by` and a comparator whose
+        (dir, dir) arm compares only the depth (equal-depth directories tie and keep walk order) and whose (file, file) arm
+        compares the path;
+      * scan_repository_multi appends the per-root lists in the order of `roots` (`for root in roots { .. append .. }`);
+      * what happens to the concatenation afterwards: only order-preserving steps (`retain` with a HashSet membership test),
+        or a pass through a hash container (`HashMap` + `into_values` / `values` / `into_iter` / `drain`) = hash order."""
+    rn = blank(open(os.path.join(common.REPO, "renamify-core/src/rename.rs")).read())
+    cut = re.search(r"#\[cfg\(test\)\]\s*(?:#\[[^\]]*\]\s*)*mod\s", rn)
+    rn_code = rn if not cut else rn[:cut.start()]
+    # the comparator: inline closure or a named fn handed to sort_by
+    m = re.search(r"collected_renames\s*\.\s*(sort_by|sort_unstable_by)\s*\(", rn_code)
+    if not m:
+        raise Shape("rename.rs: no sort of collected_renames")
+    call = rn_code[m.end() - 1:match_brace(rn_code, m.end() - 1) + 1]
+    cmp_body = call
+    nm = re.fullmatch(r"\(\s*([A-Za-z_][\w:]*)\s*\)", call)
+    if nm:
+        fa, fb = fn_body(rn_code, nm.group(1).split("::")[-1], "rename.rs comparator")
+        cmp_body = rn_code[fa:fb]
+    dd = re.search(r"\(\s*true\s*,\s*true\s*\)\s*=>\s*([^,]+),", cmp_body)
+    ff = re.search(r"\(\s*false\s*,\s*false\s*\)\s*=>\s*([^,]+),", cmp_body)
+    if not dd or not ff:
+        raise Shape("rename.rs: the rename comparator is not the (is_dir, is_dir) match")
+    dir_arm, file_arm = dd.group(1), ff.group(1)
+    ties = "depth" in dir_arm and "path" not in dir_arm
+    files_by_path = bool(re.search(r"\.path\s*\.\s*cmp\s*\(", file_arm))
+    # the block that builds `paths`
+    pb = re.search(r"let\s+paths\s*=\s*if\b", multi_body)
+    if not pb:
+        raise Shape("scan_repository_multi: `let paths = if ..` not found")
+    o = multi_body.find("{", pb.end())
+    block = multi_body[o:match_brace(multi_body, o)]
+    in_root_order = bool(re.search(r"for\s+root\s+in\s+roots\s*\{", block)) and bool(re.search(r"all_renames\s*\.\s*append\s*\(", block))
+    # helper functions of scanner.rs called in that block
+    hash_ordered, post = 0, []
+    HASHY = r"\bHashMap\b|\bHashSet\b"
+    ITER = r"into_values\s*\(|\.\s*values\s*\(|into_keys\s*\(|\.\s*drain\s*\(|into_iter\s*\(\s*\)\s*\.\s*(?:map|collect|filter)"
+    for call_m in re.finditer(r"\b([a-z_][a-z0-9_]*)\s*\(\s*(?:&mut\s+)?all_renames\b", block):
+        name = call_m.group(1)
+        post.append(name)
+        try:
+            fa, fb = fn_body(scanner_text, name, name)
+        except Shape:
+            continue
+        fbody = scanner_text[fa:fb]
+        if re.search(r"\bHashMap\b", fbody) and re.search(ITER, fbody):
+            hash_ordered += 1
+        if re.search(r"\bHashSet\b", fbody) and re.search(r"into_iter\s*\(\s*\)\s*\.\s*collect|\.\s*drain\s*\(", fbody):
+            hash_ordered += 1
+    if re.search(r"\bHashMap\b", block) and re.search(ITER, block):
+        hash_ordered += 1
+    retain_dedup = False
+    for name in post:
+        try:
+            fa, fb = fn_body(scanner_text, name, name)
+        except Shape:
+            continue
+        fbody = scanner_text[fa:fb]
+        if re.search(r"\.\s*retain\s*\(", fbody) and re.search(r"\.\s*insert\s*\(", fbody):
+            retain_dedup = True
+    return {"ren_stable": m.group(1) == "sort_by", "ren_ties": ties, "ren_files_by_path": files_by_path,
+            "ren_root_order": in_root_order, "ren_hash_ordered": hash_ordered, "ren_retain_dedup": retain_dedup,
+            "ren_post": post}
 
 
 def render(f):
@@ -57,6 +129,22 @@ def render(f):
         f"def unorderedSinks : Nat := {f['sinks']}", "",
         f"/-- per-file pre-sort `file_matches.sort_by_key(|m| (m.{', m.'.join(f['presort']) if f['presort'] else '?'}))` present -/",
         f"def perFilePresort : Bool := {str(f['presort'] == ['line', 'column']).lower()}", "",
+        "-- the rename list (`plan.paths`)", "",
+        "/-- rename.rs sorts the walk-ordered candidates of a root with the stable `sort_by` -/",
+        f"def renameSortIsStable : Bool := {str(f['ren_stable']).lower()}", "",
+        "/-- the comparator's (dir, dir) arm compares only the depth: directories of equal depth TIE (the order is not total),",
+        "    so their relative order is whatever order they are handed to the sort in -/",
+        f"def renameOrderTiesOnEqualDepthDirs : Bool := {str(f['ren_ties']).lower()}", "",
+        "/-- the (file, file) arm compares the path -/",
+        f"def renameFilesByPath : Bool := {str(f['ren_files_by_path']).lower()}", "",
+        "/-- scan_repository_multi appends the per-root lists in the order of `roots` -/",
+        f"def renamesConcatInRootOrder : Bool := {str(f['ren_root_order']).lower()}", "",
+        f"/-- functions applied to the concatenated list: {', '.join(f['ren_post']) or 'none'}; the de-duplication is an order-preserving",
+        "    `retain` with a set-membership test -/",
+        f"def renameDedupIsRetain : Bool := {str(f['ren_retain_dedup']).lower()}", "",
+        "/-- passes of the rename list through a hash container (HashMap into_values / values / drain, HashSet into_iter):",
+        "    each would hand the list to the sort in per-process hash order -/",
+        f"def renameListHashOrderedPasses : Nat := {f['ren_hash_ordered']}", "",
         "end Gen.ScanShape", ""])
 
 
